@@ -81,6 +81,11 @@ class FakeRawSocket:
         if s.recv_end == "timeout":
             s.recv_calls.append([n, -1])
             raise _socket.timeout("scripted time-out")
+        if s.recv_end == "timeout-once":           # the time-out strikes once; the rest of the frame would arrive afterwards
+            s.recv_calls.append([n, -1])
+            s.recv_end = None
+            s.chunks = [len(s.stream) - s.pos] if s.pos < len(s.stream) else []
+            raise _socket.timeout("scripted time-out")
         s.recv_calls.append([n, 0])
         return b""
 
